@@ -448,15 +448,18 @@ def atomRef : Atom → Option Id
   | .fid t ns v => if fidValid t ns then some (fidId t ns v) else none
   | _ => none
 
+/-- the path ids of one polygon of an area (none for a literal polygon) -/
+def polyPaths : Poly → List Id
+  | .ids l => l
+  | .lit _ => []
+
 /-- `Feature.References()` as ids -/
 def refsOf (f : Feat) : List Id :=
   match f.body with
   | .generic => match pathElems f.tags with
     | some as => as.filterMap atomRef
     | none => []
-  | .area ps => ps.flatMap fun p => match p with
-    | .ids l => l
-    | .lit _ => []
+  | .area ps => ps.flatMap polyPaths
   | .relation ms => ms.map (·.1)
   | .collection es => es.filterMap fun e => match e.1 with
     | .fid t ns v => some (fidId t ns v)
@@ -542,6 +545,12 @@ def closedPath (as : List Atom) : Bool :=
   | some a, some z => (atomRef a).isSome && atomRef a == atomRef z && n ≥ 1
   | _, _ => false
 
+/-- a path element that is an id without a location -/
+def missingRef (loc : Id → Bool) (a : Atom) : Bool :=
+  match atomRef a with
+  | some id => !loc id
+  | none => false
+
 /-- `ValidatePath` -/
 def validatePath (loc : Id → Bool) (tags : List Tag) : Verd :=
   if (Mutable.AMap.get tags "point").isSome then .fail else
@@ -550,9 +559,7 @@ def validatePath (loc : Id → Bool) (tags : List Tag) : Verd :=
   | some as =>
     if as.length < 2 then .fail
     else if as.any (fun a => !isPt a && (atomRef a).isNone) then .fail
-    else if as.any (fun a => match atomRef a with
-      | some id => !loc id
-      | none => false) then .missing
+    else if as.any (missingRef loc) then .missing
     else if closedPath as then .s2 else .ok
 
 /-- `ValidateArea` on one path id: the path exists, its end points resolve, `ValidatePathForArea` -/
@@ -577,9 +584,7 @@ def Verd.isErr : Verd → Bool
   | _ => false
 
 def validateArea (find : Id → Option Feat) (ps : List Poly) : Verd :=
-  let vs := ps.flatMap fun p => match p with
-    | .ids l => l.map (validateAreaPath find)
-    | .lit _ => []
+  let vs := (ps.flatMap polyPaths).map (validateAreaPath find)
   if vs.contains .missing then .missing else if vs.contains .fail then .fail else .ok
 
 /-- `ValidateFeature` -/
